@@ -70,6 +70,56 @@ CostProgram CostProgram::generate(Rng &r, int dim, int richness)
     // running cost: derivative magnitudes differ by orders of magnitude; keep the weights of high orders small
     static const double mags[5] = {1.0, 0.5, 0.1, 0.02, 0.004};
     bool any = false;
+    if (richness == -2)
+    {
+        // a single running-cost term (penalty-style costs are exactly zero at many samples while their partials are not)
+        int t = r.range(0, 9);
+        switch (t)
+        {
+        case 0:
+            c.x_pv = coef(0.5);
+            break;
+        case 1:
+            c.x_va = coef(0.3);
+            break;
+        case 2:
+            c.x_aj = coef(0.1);
+            break;
+        case 3:
+            c.x_js = coef(0.02);
+            break;
+        case 4:
+            c.x_ps = coef(0.05);
+            break;
+        case 5:
+            c.l_d = coef(0.3);
+            for (int j = 0; j < kMaxDim; ++j)
+                c.l_k[j] = r.uni(-1, 1);
+            break;
+        case 6:
+            c.s_a = coef(1.0);
+            c.s_phi = 0.0; // sin(k.p): zero at the origin
+            for (int j = 0; j < kMaxDim; ++j)
+                c.s_k[j] = r.uni(-1, 1);
+            break;
+        default:
+        {
+            int k = r.range(0, 4);
+            c.q_w[k] = r.uni(0.3, 1.0) * mags[k]; // |x|^2 with zero offset
+            break;
+        }
+        }
+        c.w_quad = 0.5;
+        if (r.coin())
+            c.seg_w = 0.1;
+        c.usesClass[0] = c.q_w[0] != 0 || c.x_pv != 0 || c.x_ps != 0 || c.s_a != 0 || c.l_d != 0 || c.o_e != 0;
+        c.usesClass[1] = c.q_w[1] != 0 || c.x_pv != 0 || c.x_va != 0 || c.c_b != 0 || c.m_c != 0;
+        c.usesClass[2] = c.q_w[2] != 0 || c.x_va != 0 || c.x_aj != 0;
+        c.usesClass[3] = c.q_w[3] != 0 || c.x_aj != 0 || c.x_js != 0;
+        c.usesClass[4] = c.q_w[4] != 0 || c.x_js != 0 || c.x_ps != 0;
+        c.usesTime = c.m_c != 0 || c.l_d != 0 || c.o_e != 0;
+        return c;
+    }
     for (int k = 0; k < 5; ++k)
         if (r.coin(on))
         {
